@@ -59,7 +59,7 @@ func main() {
 	}
 	c := &runCtx{prop: *prop, tier: *tier, seed: *seed, rep: vh.NewReport(*prop, "conc", *tier, *seed, *shard), outDir: *outDir, cur: *cur, scratch: scratch}
 	start := time.Now()
-	n := map[string][2]int{"C12": {96, 2400}, "C18": {160, 10000}, "C11": {48, 1200}}[*prop]
+	n := map[string][2]int{"C12": {96, 24000}, "C18": {160, 10000}, "C11": {48, 1200}}[*prop]
 	cnt := n[0]
 	if *tier == "thorough" {
 		cnt = n[1]
